@@ -305,23 +305,37 @@ class AutoSerialize:
                 self._recursive_save(self, root, skip_names, skip_types, compressors)
                 write_skip_metadata(root)
                 # Zip up all files in tempdir
-                with ZipFile(path, mode="w") as zf:
-                    for dirpath, _, filenames in os.walk(tmpdir):
-                        for filename in filenames:
-                            full_path = os.path.join(dirpath, filename)
-                            rel_path = os.path.relpath(full_path, tmpdir)
-                            zf.write(full_path, arcname=rel_path)
+                try:
+                    with ZipFile(path, mode="w") as zf:
+                        for dirpath, _, filenames in os.walk(tmpdir):
+                            for filename in filenames:
+                                full_path = os.path.join(dirpath, filename)
+                                rel_path = os.path.relpath(full_path, tmpdir)
+                                zf.write(full_path, arcname=rel_path)
+                except BaseException:
+                    # Never leave a partial (but loadable) archive behind. The path did not
+                    # exist when we got here: it was absent or has been removed above.
+                    if os.path.lexists(path):
+                        os.remove(path)
+                    raise
         elif store == "dir":
             # Directory mode requires no extension
             if os.path.splitext(path)[1]:
                 raise ValueError(
                     f"Expected a directory path for store='dir', but got file-like path '{path}'"
                 )
-            os.makedirs(path, exist_ok=True)
-            store_obj = LocalStore(path)
-            root = zarr.group(store=store_obj, overwrite=True)
-            self._recursive_save(self, root, skip_names, skip_types, compressors)
-            write_skip_metadata(root)
+            try:
+                os.makedirs(path, exist_ok=True)
+                store_obj = LocalStore(path)
+                root = zarr.group(store=store_obj, overwrite=True)
+                self._recursive_save(self, root, skip_names, skip_types, compressors)
+                write_skip_metadata(root)
+            except BaseException:
+                # The store is written in place: a failure part-way would leave a directory
+                # that loads as an object silently missing attributes. The path did not exist
+                # when we got here (absent or removed above), so everything in it is ours.
+                shutil.rmtree(path, ignore_errors=True)
+                raise
         else:
             raise ValueError(f"Unknown store type: {store}")
 
